@@ -547,4 +547,218 @@ theorem minv_malloc {lo hi base : Nat} {desc : Nat → Nat} {s s' : MS} {debug :
       · exact monoOK_frame (hI.ok k') (by simp only [updM, if_neg hk]) rfl (Frame.rfl' _ _)
   · cases h
 
+theorem frame_pstep {lo hi : Nat} {pg pg' : PG} {p p' : PR} {debug : Bool} {op : POp} {sp0 : Nat}
+    (hP : PInv lo hi pg p) (hpre : PPre pg op) (h : pstep debug pg p op = some (pg', p')) (hne : op.sp ≠ sp0) :
+    Frame pg pg' sp0 := by
+  cases op with
+  | grow sp d k =>
+    simp only [pstep] at h
+    split at h
+    · rename_i p1 c heq
+      simp only [Option.some.injEq, Prod.mk.injEq] at h
+      obtain ⟨rfl, rfl⟩ := h
+      exact frame_grow (pinv_grow hP hpre heq) hne
+    · cases h
+  | release sp c =>
+    simp only [pstep] at h
+    split at h
+    · simp only [Option.some.injEq, Prod.mk.injEq] at h
+      obtain ⟨rfl, rfl⟩ := h
+      exact frame_release hP hpre hne
+    · cases h
+  | releaseAll sp =>
+    simp only [pstep] at h
+    split at h
+    · simp only [Option.some.injEq, Prod.mk.injEq] at h
+      obtain ⟨rfl, rfl⟩ := h
+      exact frame_releaseAll hP hne
+    · cases h
+
+theorem minv_fl {lo hi base : Nat} {desc : Nat → Nat} {s s' : MS} {debug : Bool} {op : POp}
+    {res : Option AllocR} (hI : MInv lo hi base desc s) (hpre : PPre s.pg op) (hsp : op.sp < base)
+    (h : mstep debug base desc s (.fl op) = some (s', res)) : MInv lo hi base desc s' := by
+  simp only [mstep] at h
+  split at h
+  · rename_i pg' p' heq
+    simp only [Option.some.injEq, Prod.mk.injEq] at h
+    obtain ⟨rfl, -⟩ := h
+    exact ⟨pinv_step hI.pinv hpre heq, fun k =>
+      monoOK_frame (hI.ok k) rfl rfl (frame_pstep hI.pinv hpre heq (by omega))⟩
+  · cases h
+
+theorem minv_reset {lo hi base : Nat} {desc : Nat → Nat} {s s' : MS} {debug : Bool} {k : Nat}
+    {res : Option AllocR} (hI : MInv lo hi base desc s) (hpre : (s.pg.owned (base + k)).length ≤ 4096 + 1)
+    (h : mstep debug base desc s (.mreset k) = some (s', res)) : MInv lo hi base desc s' := by
+  have hK := hI.ok k
+  simp only [mstep] at h
+  split at h
+  · rename_i p' m' heq
+    simp only [Option.some.injEq, Prod.mk.injEq] at h
+    obtain ⟨rfl, -⟩ := h
+    unfold Mono.reset at heq
+    by_cases hz : (s.mono k).cursor = 0
+    · have hb : ((s.mono k).cursor != 0) = false := by simp [hz]
+      rw [hb] at heq
+      simp only [Bool.false_eq_true, if_false, Option.some.injEq, Prod.mk.injEq] at heq
+      obtain ⟨rfl, rfl⟩ := heq
+      rw [if_pos hz]
+      refine ⟨hI.pinv, fun k' => ?_⟩
+      by_cases hk : k' = k
+      · subst hk
+        refine ⟨?_, ?_, hK.odesc, ?_, ?_⟩
+        · simp [updM, Acct.reset, gsum]
+        · simp only [updM, eq_self, if_true]; exact hK.cur
+        · intro g hg; simp [updM] at hg
+        · simp [updM]
+      · exact monoOK_frame (hI.ok k') (by simp only [updM, if_neg hk]) (by simp only [updM, if_neg hk])
+          (Frame.rfl' _ _)
+    · have hb : ((s.mono k).cursor != 0) = true := by simp [hz]
+      rw [hb] at heq
+      simp only [if_true] at heq
+      split at heq
+      · rename_i p1 hra
+        simp only [Option.some.injEq, Prod.mk.injEq] at heq
+        obtain ⟨rfl, rfl⟩ := heq
+        rw [if_neg hz]
+        have hP' := pinv_releaseAll hI.pinv hpre hra
+        refine ⟨hP', fun k' => ?_⟩
+        by_cases hk : k' = k
+        · subst hk
+          have hown : (s.pg.releaseAll (base + k') (s.p.heads (base + k'))).owned (base + k') = [] := by
+            show (if base + k' = base + k' then [] else s.pg.owned (base + k')) = []
+            rw [if_pos rfl]
+          refine ⟨?_, ?_, ?_, ?_, ?_⟩
+          · simp [updM, Acct.reset, gsum]
+          · simp [updM]
+          · intro r _ ho; rw [hown] at ho; cases ho
+          · intro g hg; simp [updM] at hg
+          · simp [updM]
+        · exact monoOK_frame (hI.ok k') (by simp only [updM, if_neg hk]) (by simp only [updM, if_neg hk])
+            (frame_releaseAll hI.pinv (by omega))
+      · cases heq
+  · cases h
+
+/-- **Preservation**: every protocol-respecting operation that answers keeps the invariant. -/
+theorem minv_step {lo hi base : Nat} {desc : Nat → Nat} {s s' : MS} {debug : Bool} {op : MOp}
+    {res : Option AllocR} (hI : MInv lo hi base desc s) (hpre : MPre base s op)
+    (h : mstep debug base desc s op = some (s', res)) : MInv lo hi base desc s' := by
+  cases op with
+  | fl op => exact minv_fl hI hpre.1 hpre.2 h
+  | malloc k pages => exact minv_malloc hI hpre h
+  | mreset k => exact minv_reset hI hpre h
+
+theorem minv_init {M first last : Nat} (h1 : 0 < first) (h2 : first ≤ last) (h3 : last < M) (base : Nat)
+    (desc : Nat → Nat) : MInv first (last + 1) base desc { p := { st := finalize M first last } } :=
+  ⟨pinv_init h1 h2 h3, fun _ => ⟨⟨rfl, rfl⟩, Or.inl ⟨rfl, rfl, rfl⟩, fun _ hr => (by cases hr),
+    fun _ hg => (by cases hg), List.Pairwise.nil⟩⟩
+
+/-- The invariant holds after every protocol-respecting history over the shared pool. -/
+theorem mono_history_inv {lo hi base : Nat} {desc : Nat → Nat} {debug : Bool} :
+    ∀ (ops : List MOp) {s s' : MS}, MInv lo hi base desc s → MValid debug base desc s ops →
+      mrun debug base desc s ops = some s' → MInv lo hi base desc s' := by
+  intro ops
+  induction ops with
+  | nil => intro s s' hI _ h; simp only [mrun, Option.some.injEq] at h; exact h ▸ hI
+  | cons op ops ih =>
+    intro s s' hI hv h
+    simp only [mrun] at h
+    simp only [MValid] at hv
+    cases hs : mstep debug base desc s op with
+    | none => rw [hs] at h; cases h
+    | some q =>
+      obtain ⟨s1, r⟩ := q
+      rw [hs] at h hv
+      exact ih (minv_step hI hv.1 hs) hv.2 h
+
+/-! ## C28 in every reachable state -/
+
+/-- **`mono_grant_in_space`**: every live grant of resource `k` is non-empty and lies inside a region
+`[r.start, r.start + r.size)` that the resource owns (it is on the resource's own region list) and
+every chunk of which carries the resource's descriptor in the VM map. -/
+theorem mono_grant_in_space {lo hi base : Nat} {desc : Nat → Nat} {s : MS} (hI : MInv lo hi base desc s)
+    {k : Nat} {g : Grant} (hg : g ∈ s.grants k) :
+    0 < g.pages ∧ ∃ r ∈ s.pg.g.regions, r.start ∈ s.pg.owned (base + k) ∧ lo ≤ r.start ∧ r.start + r.size ≤ hi ∧
+      r.start * pagesInChunk ≤ g.start ∧ g.start + g.pages ≤ (r.start + r.size) * pagesInChunk ∧
+      ∀ x, r.start ≤ x → x < r.start + r.size → s.p.st.desc x = desc k := by
+  obtain ⟨hp, r, hr, ho, h1, h2, _⟩ := (hI.ok k).gin g hg
+  have hb := hI.pinv.inv.regions_disjoint.2 r hr
+  refine ⟨hp, r, hr, ho, hb.2.1, hb.2.2, h1, by rw [Nat.add_mul]; exact h2, fun x hx1 hx2 => ?_⟩
+  rw [hI.pinv.inv.descriptor_exact.1 r hr x hx1 hx2]
+  exact (hI.ok k).odesc r hr ho
+
+/-- **`mono_grants_disjoint`**: the live grants of one resource are pairwise disjoint; a live grant of
+resource `k` is disjoint from every live grant of every other monotone resource, and from every region
+owned by any other page resource (head slot `sp ≠ base + k`). -/
+theorem mono_grants_disjoint {lo hi base : Nat} {desc : Nat → Nat} {s : MS} (hI : MInv lo hi base desc s) (k : Nat) :
+    (s.grants k).Pairwise Grant.Disj ∧
+    (∀ g ∈ s.grants k, ∀ sp, sp ≠ base + k → ∀ r ∈ s.pg.g.regions, r.start ∈ s.pg.owned sp →
+      g.start + g.pages ≤ r.start * pagesInChunk ∨ (r.start + r.size) * pagesInChunk ≤ g.start) ∧
+    (∀ k', k' ≠ k → ∀ g ∈ s.grants k, ∀ g' ∈ s.grants k', Grant.Disj g g') := by
+  have key : ∀ g ∈ s.grants k, ∀ sp, sp ≠ base + k → ∀ r ∈ s.pg.g.regions, r.start ∈ s.pg.owned sp →
+      g.start + g.pages ≤ r.start * pagesInChunk ∨ (r.start + r.size) * pagesInChunk ≤ g.start := by
+    intro g hg sp hsp r hr ho
+    obtain ⟨_, r0, hr0, ho0, h1, h2, _⟩ := (hI.ok k).gin g hg
+    rcases pairwise_mem hI.pinv.inv.regions_disjoint.1 hr0 hr with e | hd
+    · subst e
+      exact absurd (hI.pinv.owned_disj sp (base + k) _ ho ho0) hsp
+    · unfold Reg.Disj at hd
+      rw [Nat.add_mul]
+      unfold pagesInChunk at *
+      omega
+  refine ⟨(hI.ok k).gdisj, key, fun k' hk g hg g' hg' => ?_⟩
+  obtain ⟨_, r', hr', ho', h1', h2', _⟩ := (hI.ok k').gin g' hg'
+  have := key g hg (base + k') (by omega) r' hr' ho'
+  unfold Grant.Disj
+  rw [Nat.add_mul] at this
+  omega
+
+/-- **`mono_counters_exact`**: reserved = committed = the pages granted since the last reset. -/
+theorem mono_counters_exact {lo hi base : Nat} {desc : Nat → Nat} {s : MS} (hI : MInv lo hi base desc s) (k : Nat) :
+    (s.mono k).acct.reserved = gsum (s.grants k) ∧ (s.mono k).acct.committed = gsum (s.grants k) :=
+  (hI.ok k).acct
+
+/-- **`mono_fail_changes_nothing_partial`**: a refused request answers `fail` — it never answers a
+grant at address 0 — and leaves the shared VM map (region map, links, descriptors, avail), every page
+resource's head, the ownership bookkeeping, every live grant, every other monotone resource and this
+resource's two counters exactly as they were. The pool had no run of `required_chunks` chunks and the
+request did not fit below the sentinel.
+
+FULL statement, which is FALSE for the code (see `failed_growth_forgets_current_region`): "… and the
+resource's cursor, sentinel and current chunk are unchanged". The code zeroes all three. -/
+theorem mono_fail_changes_nothing_partial {lo hi base : Nat} {desc : Nat → Nat} {s s' : MS} {debug : Bool}
+    {k pages : Nat} {r : AllocR} (hI : MInv lo hi base desc s) (hpages : 1 ≤ pages)
+    (h : mstep debug base desc s (.malloc k pages) = some (s', some r)) (hr : ∀ st n b, r ≠ .ok st n b) :
+    r = .fail ∧ s'.p = s.p ∧ s'.pg = s.pg ∧ s'.grants = s.grants ∧ (s'.mono k).acct = (s.mono k).acct ∧
+    (∀ k', k' ≠ k → s'.mono k' = s.mono k') ∧
+    (s'.mono k).cursor = 0 ∧ (s'.mono k).sentinel = 0 ∧ (s'.mono k).cc = 0 ∧
+    (s.mono k).sentinel < (s.mono k).cursor + pages ∧
+    (s.p.grow debug (base + k) (desc k) (requiredChunks pages)).2 = .val 0 := by
+  simp only [mstep] at h
+  split at h
+  · simp only [Option.some.injEq, Prod.mk.injEq] at h
+    exact absurd h.2.symm (hr _ _ _)
+  · rename_i p' m' heq
+    simp only [Option.some.injEq, Prod.mk.injEq] at h
+    obtain ⟨rfl, rfl⟩ := h
+    have hc := acquire_spec hpages heq (Or.inr rfl)
+    cases hc with
+    | bump _ _ hr' _ => cases hr'
+    | grown _ _ _ _ hr' _ => cases hr'
+    | refused hover hg _ hm =>
+      have hpp := grow_zero_same hI.pinv (requiredChunks_pos hpages) hg
+      subst hpp
+      subst hm
+      refine ⟨rfl, rfl, rfl, rfl, by simp [updM], fun k' hk => by simp [updM, hk], by simp [updM],
+        by simp [updM], by simp [updM], hover, by rw [hg]⟩
+  · cases h
+
+/-- A grant is never at address 0: it lies in the range `[lo, hi)` of the pool, `lo > 0`. -/
+theorem mono_grant_ne_zero {lo hi base : Nat} {desc : Nat → Nat} {s : MS} (hI : MInv lo hi base desc s)
+    {k : Nat} {g : Grant} (hg : g ∈ s.grants k) : lo * pagesInChunk ≤ g.start ∧ 0 < g.start := by
+  obtain ⟨_, r, _, _, h1, _, h3, _⟩ := mono_grant_in_space hI hg
+  have := hI.pinv.inv.lo_pos
+  have : lo * pagesInChunk ≤ r.start * pagesInChunk := Nat.mul_le_mul_right _ h1
+  unfold pagesInChunk at *
+  omega
+
 end Mmtk.Map32
